@@ -52,7 +52,7 @@ RULE = ('cases: correlators with T=2..16 (matrix content: mostly T<=8, 15% up to
 ASSUMPTIONS = ['scalar overloads of Obs / CObs used by the reference on single entries are judged by C01',
                'tolerance 1e-10 * scale (scale = magnitude of result and operands) on values, fluctuations, replica means',
                'a result that would be undefined on every timeslice may raise instead (a completely undefined correlator cannot be constructed)',
-               'cells outside the stated subset (CObs as left operand, ** with a correlator exponent, division by complex numbers / complex '
+               'cells outside the stated subset (CObs as left operand of a complex-content correlator or in a division, ** with a correlator exponent, division by complex numbers / complex '
                'correlators, numpy integers, ndarray partners) may be rejected with TypeError / ValueError / AttributeError: counted, not judged',
                'set_prange (a setter) and private helpers are not tapped; real / imag are properties and are checked by the workload directly',
                'central values are generated away from 0 and from the singular points of the functions',
@@ -475,6 +475,8 @@ def profile(rng, T, kind):
         v = rng.uniform(0.5, 3.0) * np.exp(-rng.uniform(0.05, 0.4) * t) + rng.uniform(0.05, 0.3)
     elif kind == 'changing':
         v = rng.uniform(0.5, 3.0) * np.cos(rng.uniform(0.5, 1.3) * t + rng.uniform(0, 6.28)) * np.exp(-0.05 * t)
+    elif kind == 'alternating':
+        v = rng.uniform(0.3, 3.0, size=T) * np.where((t + int(rng.integers(0, 2))) % 2 == 0, 1.0, -1.0)
     else:
         v = rng.uniform(0.3, 3.0, size=T) * rng.choice([-1.0, 1.0], size=T)
     v = np.where(np.abs(v) < 0.05, np.where(v < 0, -0.06, 0.06), v)
@@ -715,7 +717,7 @@ def _cells():
                         need = False
                     elif op in ('+', '-', '*'):
                         if not cplx:
-                            need = partner != 'CObs' or order == 'L'
+                            need = True        # incl. CObs as LEFT operand of a real-content correlator (statement: either operand order)
                         elif order == 'L':
                             need = True
                         else:
@@ -734,7 +736,7 @@ def _cells():
 REQUIRED_CELLS, OPEN_CELLS = _cells()
 
 
-def do_binop(ctx, rng, cell, mask, required):
+def do_binop(ctx, rng, cell, mask, required, force_prof=None):
     content, op, partner, order = cell
     N = 1 if content[1] == '1' else int(rng.integers(2, 4))
     T = int(rng.integers(2, 17)) if (N == 1 or rng.random() < 0.15) else int(rng.integers(2, 9))
@@ -745,6 +747,8 @@ def do_binop(ctx, rng, cell, mask, required):
     prof = str(rng.choice(['decay', 'changing', 'mixed']))
     if op == '**' and rng.random() < 0.6:
         prof = 'decay'
+    if force_prof:
+        prof = force_prof
     A = make_corr(ctx, rng, T, N, 'complex' if cplx else 'real', mask, lay, prof=prof)
     if partner in ('Corr', 'CorrC'):
         if op in ('+', '-'):
@@ -759,6 +763,8 @@ def do_binop(ctx, rng, cell, mask, required):
     elif partner == 'ndarray':
         y = rng.uniform(0.5, 2.0, size=T) * rng.choice([-1.0, 1.0], size=T)
     elif op == '**' and order == 'L':
+        if force_prof and partner == 'int':
+            partner = 'float'
         if partner in ('int', 'npint'):
             y = int(rng.choice([2, 3, -1, -2, 1, 0]))
             y = np.int64(y) if partner == 'npint' else y
@@ -769,7 +775,7 @@ def do_binop(ctx, rng, cell, mask, required):
             y = make_scalar_partner(rng, partner, lay)
     else:
         y = make_scalar_partner(rng, partner, lay)
-    if op in ('+', '-', '*') and partner in ('int', 'float', 'npfloat', 'complex') and rng.random() < 0.12:
+    if op in ('+', '-', '*') and partner in ('int', 'float', 'npfloat', 'complex') and rng.random() < 0.18:
         y = type(y)(0)          # a zero partner: c * 0 has no fluctuations, c + 0 changes nothing (checklist 14)
         ctx.count('zero_partners')
     left, right = (A, y) if order == 'L' else (y, A)
@@ -807,7 +813,7 @@ def do_binop(ctx, rng, cell, mask, required):
         else:
             report_raise(ctx, exc, plabel, label, exp, required, context_of(*operands))
         return
-    if exp is None or (not required and not is_corr(res)):
+    if exp is None or (not required and not is_corr(res) and cplx):
         ctx.count('open_cell_result_not_judged')
         ctx.cell('not-judged', label, type(res).__name__)
         return
@@ -1274,7 +1280,8 @@ def do_misc(ctx, rng, idx):
     quiet(ctx, lambda: A.plateau(rngl), 'plateau')
     quiet(ctx, lambda: A.plateau(plateau_range=rngl, method='avg', auto_gamma=True), 'plateau')
     fr = [0, T - 1]
-    quiet(ctx, lambda: A.fit(lambda a, x: a[0] * anp.exp(-a[1] * x), fr, silent=True), 'fit')
+    if idx % 2:
+        quiet(ctx, lambda: A.fit(lambda a, x: a[0] * anp.exp(-a[1] * x), fr, silent=True), 'fit')
     quiet(ctx, lambda: A.fit(lambda a, x: a[0] + a[1] * x, fitrange=fr, silent=True), 'fit')
     # reweight / correlate (results judged by C05)
     w = lay.obs(rng, 1.0, rel=0.1)
@@ -1299,8 +1306,8 @@ def do_misc(ctx, rng, idx):
 
 def do_gevp(ctx, rng):
     """exactly decaying matrix correlator: GEVP, Eigenvalue (-> projected with lists), prune, for the mutation monitor"""
-    T = int(rng.integers(8, 15))
-    N = int(rng.integers(2, 4))
+    T = int(rng.integers(6, 10))
+    N = 2 if rng.random() < 0.75 else 3
     lay = Layout(rng, nmin=10, nmax=12)
     E = np.cumsum(rng.uniform(0.2, 0.5, size=N))
     Z = rng.uniform(0.5, 1.5, size=(N, N)) + np.eye(N)
@@ -1738,14 +1745,21 @@ def hard_near_symmetric(ctx, rng, mask, k=0):
     ctx.cell('hard', 'near-symmetric', 'scale=%g' % sc, 'level=%g' % level)
 
 
-HARD = [hard_same_operand, hard_same_entry, hard_held_results, hard_boundary, hard_representation, hard_one_by_one, hard_near_symmetric]
+# scenario, cases per kind of undefined set and quick run: the cheap ones often, the ones that make 20-60 judged calls per case less often
+HARD_WEIGHTS = [(hard_same_operand, 13), (hard_same_entry, 10), (hard_held_results, 5), (hard_boundary, 6), (hard_representation, 6),
+                (hard_one_by_one, 13), (hard_near_symmetric, 13)]
+HARD = []
+for _k in range(max(w for _, w in HARD_WEIGHTS)):
+    HARD += [(f, _k) for f, w in HARD_WEIGHTS if _k < w]
 
 
 def do_hard(ctx, rng, idx, mask):
     ctx.count('hardening_scenarios')
-    f = HARD[idx % len(HARD)]
+    f, occurrence = HARD[idx % len(HARD)]
+    occurrence += (idx // len(HARD)) * 13
+    ctx.count('scenario:' + f.__name__)
     if f is hard_near_symmetric:
-        f(ctx, rng, mask, k=(idx // len(HARD)) * len(MASKS) + MASKS.index(mask))
+        f(ctx, rng, mask, k=occurrence * len(MASKS) + MASKS.index(mask))
     else:
         f(ctx, rng, mask)
 
@@ -1763,9 +1777,9 @@ def plan(tier):
         # every index map / function / scenario meets its oracle >= ~50 times per quick run (checklist 13; counters judged:<method>)
         for k in range(3):
             p.append(('index%d:%s' % (k, mask), len(INDEX_KINDS) * (5 if k == 0 else 4) * m))
-        for k in range(2):
+        for k in range(4):
             p.append(('func%d:%s' % (k, mask), len(FUNC_CELLS) * m))
-        p += [('binop:' + mask, len(REQUIRED_CELLS) * m), ('matmul:' + mask, 39 * m), ('hard:' + mask, len(HARD) * 13 * m)]
+        p += [('binop:' + mask, len(REQUIRED_CELLS) * m), ('matmul:' + mask, 39 * m), ('hard:' + mask, len(HARD) * m), ('pow:' + mask, 16 * m)]
     p += [('binop_open', len(OPEN_CELLS) * m), ('history', 100 * m), ('misc', 52 * m), ('gevp', 26 * m)]
     return p
 
@@ -1777,8 +1791,14 @@ def run_case(ctx, kind, idx, rng):
         k = int(kind[-1])
         kind = kind[:-1]
         idx = idx + k * (len(INDEX_KINDS) * 5 if kind == 'index' else len(FUNC_CELLS)) * (1 if ctx.tier == 'quick' else 12)
+        if kind == 'func':
+            mask = MASKS[(MASKS.index(mask) + k) % 4]
     if kind == 'binop':
         do_binop(ctx, rng, REQUIRED_CELLS[idx % len(REQUIRED_CELLS)], mask, True)
+    elif kind == 'pow':
+        # powers of correlators with timeslices of both signs and non-integer exponents: NaN results must become undefined slices
+        cells = [c for c in REQUIRED_CELLS if c[1] == '**']
+        do_binop(ctx, rng, cells[idx % len(cells)], mask, True, force_prof='alternating')
     elif kind == 'binop_open':
         do_binop(ctx, rng, OPEN_CELLS[idx % len(OPEN_CELLS)], str(rng.choice(MASKS)), False)
     elif kind == 'func':
